@@ -2733,6 +2733,121 @@ theorem runHooks_nothing_lost_nothing_twice [DecidableEq κ] [DecidableEq α] {h
       exact ih j h h' out hh hh' ho hsl
 
 
+/-! ### the soundness clause, stated on `run_hooks` itself -/
+
+/-- what C36 demands of one hook of a tick, by hook kind: `h` before `run_hooks`, `h'` after, `out`
+what was sent into the tick — an in-order prefix (ordered input), complementary in-order
+sub-multisets (unordered input), the same per key (keyed inputs), one snapshot that is the last
+released one again or a buffered one with everything older dropped (singletons, per key for keyed
+singletons).  The `TopLevel*` hooks never belong to a tick. -/
+def HookSound [DecidableEq κ] : Hook κ α → Hook κ α → List (Msg κ α) → Prop
+  | .streamTotal q _, h', out =>
+      ∃ r q', h' = .streamTotal q' none ∧ out = r.map .item ∧ r ++ q' = q
+  | .streamNo q _, h', out =>
+      ∃ r q', h' = .streamNo q' none ∧ out = r.map .item ∧ Split q r q'
+  | .keyedTotal m _, h', out =>
+      ∃ rel m', h' = .keyedTotal m' none ∧ out = rel.map (fun e => .kv e.1 e.2) ∧ KeyedRel PrefixP m rel m'
+  | .keyedNo m _, h', out =>
+      ∃ rel m', h' = .keyedNo m' none ∧ out = rel.map (fun e => .kv e.1 e.2) ∧ KeyedRel Split m rel m'
+  | .singleton s, h', out =>
+      ∃ s2 x, h' = .singleton s2 ∧ out = [.item x] ∧ s2.last = some x ∧
+        ((s.last = some x ∧ s2.q = s.q) ∨ ∃ skipped, s.q = skipped ++ x :: s2.q)
+  | .passthrough q _ last, h', out =>
+      ∃ x, h' = .passthrough [] none (some x) ∧ out = [.item x] ∧
+        ((q = [] ∧ last = some x) ∨ ∃ skipped, q = skipped ++ [x])
+  | .keyedSingleton m _ last, h', out =>
+      ∃ rel m' last', h' = .keyedSingleton m' none last' ∧ out = rel.map (fun e => .kv e.1 e.2.1) ∧
+        KSnapRel last m rel m' last'
+  | _, _, _ => True
+
+theorem hookStep_sound [DecidableEq κ] {h h' : Hook κ α} {out : List (Msg κ α)} (hst : HookStep h h' out) :
+    HookSound h h' out := by
+  obtain ⟨d, f, nt, h1, d', ha, hr⟩ := hst
+  cases h with
+  | streamTotal q r =>
+    simp only [Hook.auto, Option.map_eq_some_iff] at ha
+    obtain ⟨⟨r1, q1, nt1, d1⟩, hh, heq⟩ := ha
+    simp only [Prod.mk.injEq] at heq; obtain ⟨_, rfl, _⟩ := heq
+    simp only [Hook.release, Option.map_some, Option.some.injEq, Prod.mk.injEq] at hr
+    obtain ⟨rfl, rfl⟩ := hr
+    exact ⟨r1, q1, rfl, rfl, (streamTotal_released_is_prefix hh).1⟩
+  | streamNo q r =>
+    simp only [Hook.auto, Option.map_eq_some_iff] at ha
+    obtain ⟨⟨r1, q1, nt1, d1⟩, hh, heq⟩ := ha
+    simp only [Prod.mk.injEq] at heq; obtain ⟨_, rfl, _⟩ := heq
+    simp only [Hook.release, Option.map_some, Option.some.injEq, Prod.mk.injEq] at hr
+    obtain ⟨rfl, rfl⟩ := hr
+    exact ⟨r1, q1, rfl, rfl, (streamNo_released_is_sublist hh).1⟩
+  | keyedTotal m r =>
+    simp only [Hook.auto, Option.map_eq_some_iff] at ha
+    obtain ⟨⟨r1, m1, nt1, d1⟩, hh, heq⟩ := ha
+    simp only [Prod.mk.injEq] at heq; obtain ⟨_, rfl, _⟩ := heq
+    simp only [Hook.release, Option.map_some, Option.some.injEq, Prod.mk.injEq] at hr
+    obtain ⟨rfl, rfl⟩ := hr
+    exact ⟨r1, m1, rfl, rfl, (keyedTotal_released_is_prefix_per_key hh).1⟩
+  | keyedNo m r =>
+    simp only [Hook.auto, Option.map_eq_some_iff] at ha
+    obtain ⟨⟨r1, m1, nt1, d1⟩, hh, heq⟩ := ha
+    simp only [Prod.mk.injEq] at heq; obtain ⟨_, rfl, _⟩ := heq
+    simp only [Hook.release, Option.map_some, Option.some.injEq, Prod.mk.injEq] at hr
+    obtain ⟨rfl, rfl⟩ := hr
+    exact ⟨r1, m1, rfl, rfl, (keyedNo_released_is_sublist_per_key hh).1⟩
+  | singleton s =>
+    simp only [Hook.auto, Option.map_eq_some_iff] at ha
+    obtain ⟨⟨nt1, s1, d1⟩, hh, heq⟩ := ha
+    simp only [Prod.mk.injEq] at heq; obtain ⟨_, rfl, _⟩ := heq
+    simp only [Hook.release, Option.map_eq_some_iff] at hr
+    obtain ⟨⟨s2, x⟩, hrel, hy⟩ := hr
+    simp only [Prod.mk.injEq] at hy; obtain ⟨rfl, rfl⟩ := hy
+    obtain ⟨hlast, _, hshape, _⟩ := singleton_release_shape hh hrel
+    refine ⟨s2, x, rfl, rfl, hlast, ?_⟩
+    rcases hshape with ⟨_, a, b⟩ | ⟨_, c⟩
+    · exact Or.inl ⟨a, b⟩
+    · exact Or.inr c
+  | passthrough q r last =>
+    obtain ⟨_, x, hout, hshape⟩ := passthrough_release_shape ha hr
+    rcases hshape with ⟨_, hq, hl, heq⟩ | ⟨_, skipped, hq, heq⟩
+    · exact ⟨x, heq, hout, Or.inl ⟨hq, hl⟩⟩
+    · exact ⟨x, heq, hout, Or.inr ⟨skipped, hq⟩⟩
+  | keyedSingleton m r last =>
+    simp only [Hook.auto, Option.map_eq_some_iff] at ha
+    obtain ⟨⟨r1, m1, l1, nt1, d1⟩, hh, heq⟩ := ha
+    simp only [Prod.mk.injEq] at heq; obtain ⟨_, rfl, _⟩ := heq
+    simp only [Hook.release, Option.map_some, Option.some.injEq, Prod.mk.injEq] at hr
+    obtain ⟨rfl, rfl⟩ := hr
+    exact ⟨r1, m1, l1, rfl, rfl, (keyedSingleton_release_shape _ _ _ _ _ hh).1⟩
+  | tlOrder _ _ => trivial
+  | tlFold _ _ => trivial
+  | tlKeyedOrder _ _ => trivial
+  | tlPartial _ _ => trivial
+  | tlMerge _ _ _ => trivial
+  | tlKeyedMerge _ _ _ => trivial
+
+/-- **C36 on `run_hooks`.**  Whatever `run_hooks` does to the idle hooks of a tick, for every tape:
+each hook's output and new state satisfy the soundness clause of its kind (`HookSound`) — prefixes
+for ordered inputs, sub-multisets for unordered ones, per key for keyed inputs, snapshots that are the
+last one again or a newer buffered one. -/
+theorem runHooks_tick_decisions_sound [DecidableEq κ] {hs hs' : List (Hook κ α)} {d d' : Drv}
+    {outs : List (List (Msg κ α))} {made : Bool}
+    (hidle : ∀ h ∈ hs, h.cur = none) (hrun : runHooks hs d = some (hs', outs, made, d')) :
+    ∀ (i : Nat) (h h' : Hook κ α) (out : List (Msg κ α)),
+      hs[i]? = some h → hs'[i]? = some h' → outs[i]? = some out → HookSound h h' out := by
+  have hst := runHooks_is_hookwise hidle hrun
+  clear hrun hidle
+  induction hst with
+  | nil => intro i h h' out hh; simp at hh
+  | @cons h0 h0' out0 hs hs' outs hstep _ ih =>
+    intro i h h' out hh hh' ho
+    cases i with
+    | zero =>
+      simp only [List.getElem?_cons_zero, Option.some.injEq] at hh hh' ho
+      subst hh; subst hh'; subst ho
+      exact hookStep_sound hstep
+    | succ j =>
+      simp only [List.getElem?_cons_succ] at hh hh' ho
+      exact ih j h h' out hh hh' ho
+
+
 /-! ### `Hook.WF` is an invariant of decisions (so the no-panic theorem applies tick after tick) -/
 
 theorem aux_kSnapRel_last_mono [DecidableEq κ] {last last' : List (κ × α)} {m m' : KMap κ α}
